@@ -222,7 +222,9 @@ obint_name(obint_t hx)
 	obint_t r;
 
 	if (UNLIKELY(hx == 0UL)) {
-		return obs;
+		/* the nul obint has no name, certainly not the
+		 * first one in the array */
+		return "";
 	} else if (UNLIKELY(sstk == NULL)) {
 		goto auto_uid;
 	}
